@@ -36,6 +36,25 @@ FORBIDDEN = [
 ]
 
 
+
+
+def _big(x):
+    """ints beyond the interpreter's str() digit limit are written as 'bigint:<digits>' (the limit itself is left alone)"""
+    if isinstance(x, bool) or x is None or isinstance(x, (str, float)):
+        return x
+    if isinstance(x, int):
+        return x if -SX.BIG < x < SX.BIG else "bigint:" + SX.big_str(x)
+    if isinstance(x, (list, tuple)):
+        return [_big(y) for y in x]
+    if isinstance(x, dict):
+        return {(k if isinstance(k, str) else _big(k)): _big(v) for k, v in x.items()}
+    return x
+
+
+def jdumps(x, **kw):
+    kw.setdefault("default", str)
+    return json.dumps(_big(x), **kw)
+
 def strip_comments(src):
     out = []
     depth = 0
@@ -188,7 +207,7 @@ def load_known():
 
 
 def case_hash(case):
-    return hashlib.sha1(json.dumps(case, sort_keys=True, default=str).encode()).hexdigest()[:12]
+    return hashlib.sha1(jdumps(case, sort_keys=True, default=str).encode()).hexdigest()[:12]
 
 
 def write_replay(pid, case, info):
@@ -197,7 +216,7 @@ def write_replay(pid, case, info):
     path = os.path.join(d, f"{pid}-{case_hash(case) if case is not None else 'tie'}.json")
     body = {"property": pid, "case": case, "replay_cmd": f"./check {pid} --replay {path}"}
     body.update(info)
-    json.dump(body, open(path, "w"), indent=1, default=str)
+    open(path, "w").write(jdumps(body, indent=1))
     return path
 
 
@@ -222,13 +241,13 @@ def evaluate(mod, cases):
             impl = mod.impl(c)
         except Exception as e:  # the impl wrapper maps expected exceptions itself
             impl = {"harness_exception": f"{type(e).__name__}: {e}"}
-        impl = json.loads(json.dumps(impl, default=str))
+        impl = json.loads(jdumps(impl, default=str))
         if o.startswith("(driver-error"):
             dec = {"model": {"driver_error": o}, "spec": {"driver_error": o}, "in_domain": False,
                    "driver_error": True}
         else:
             dec = mod.decode(SX.parse(o), c)
-            dec = json.loads(json.dumps(dec, default=str))
+            dec = json.loads(jdumps(dec, default=str))
         recs.append({"case": c, "impl": impl, "dec": dec})
     return recs
 
@@ -275,13 +294,13 @@ def run_check(mod, pid, tier, seed, args, workdir, t0):
             print("replay names a broken tie, not an input:", rep.get("broken"))
             return 1
         rec = evaluate(mod, [case])[0]
-        print("case :", json.dumps(case, default=str))
-        print("impl :", json.dumps(rec["impl"], default=str))
-        print("model:", json.dumps(rec["dec"].get("model"), default=str))
-        print("spec :", json.dumps(rec["dec"].get("spec"), default=str))
+        print("case :", jdumps(case, default=str))
+        print("impl :", jdumps(rec["impl"], default=str))
+        print("model:", jdumps(rec["dec"].get("model"), default=str))
+        print("spec :", jdumps(rec["dec"].get("spec"), default=str))
         project = getattr(mod, "project", lambda c, res, dec: res)
-        pim = json.loads(json.dumps(project(case, rec["impl"], rec["dec"]), default=str))
-        print("impl (projected to the specification's observables):", json.dumps(pim, default=str))
+        pim = json.loads(jdumps(project(case, rec["impl"], rec["dec"]), default=str))
+        print("impl (projected to the specification's observables):", jdumps(pim, default=str))
         ok = pim == rec["dec"].get("spec") or not rec["dec"].get("in_domain", True)
         print("agree" if ok else f"VIOLATION property={pid} replay={args.replay}")
         return 0 if ok else 1
@@ -327,12 +346,12 @@ def run_check(mod, pid, tier, seed, args, workdir, t0):
     _fm = getattr(mod, "for_model", None)
 
     def for_model(c, impl):
-        return json.loads(json.dumps(_fm(c, impl), default=str)) if _fm else impl
+        return json.loads(jdumps(_fm(c, impl), default=str)) if _fm else impl
     for r in recs:
         c, impl, dec = r["case"], r["impl"], r["dec"]
         h = case_hash(c)
         try:
-            pimpl = json.loads(json.dumps(project(c, impl, dec), default=str))
+            pimpl = json.loads(jdumps(project(c, impl, dec), default=str))
         except Exception as e:
             pimpl = {"project_failed": str(e)}
         if hasattr(mod, "classify"):
@@ -390,7 +409,7 @@ def run_check(mod, pid, tier, seed, args, workdir, t0):
         if hasattr(mod, "shrink"):
             try:
                 c2 = mod.shrink(c, lambda cc: (lambda r: r["dec"].get("in_domain", True) and not r["dec"].get("driver_error")
-                                                and json.loads(json.dumps(project(cc, r["impl"], r["dec"]), default=str)) != r["dec"].get("spec"))(evaluate(mod, [cc])[0]))
+                                                and json.loads(jdumps(project(cc, r["impl"], r["dec"]), default=str)) != r["dec"].get("spec"))(evaluate(mod, [cc])[0]))
                 if c2 is not None:
                     r2 = evaluate(mod, [c2])[0]
                     c, impl, dec = c2, r2["impl"], r2["dec"]
